@@ -719,6 +719,18 @@ regp_resp_meta(RegP *p,const uint_least8_t meta)
  * leaks.
  */
 
+static int
+recv_channel_error(RegP *p, ContinuableSink *cs, const int rc)
+{
+    /* The channel failed in the middle of a frame. No frame is handed to the
+     * caller, so the receive buffer (if one was allocated already) has to be
+     * released here. */
+    if (cs->buffer.data != NULL) {
+        block_free(p->alloc, cs->buffer.data);
+    }
+    return rc;
+}
+
 int
 regp_recv(RegP *p, RPMaybeFrame *mf)
 {
@@ -828,7 +840,7 @@ regp_recv(RegP *p, RPMaybeFrame *mf)
     case RP_EP_TCP: {
         const ssize_t rc = lenp_decode_source_to_sink(&p->ep.source, &recv);
         if (rc < 0) {
-            return rc;
+            return recv_channel_error(p, &cs, (int)rc);
        }
     } break;
     case RP_EP_SERIAL:
@@ -837,7 +849,7 @@ regp_recv(RegP *p, RPMaybeFrame *mf)
         RFC1055Context slip = RFC1055_CONTEXT_INIT_DEFAULT;
         const int rc = rfc1055_decode(&slip, &p->ep.source, &recv);
         if (rc < 0) {
-            return rc;
+            return recv_channel_error(p, &cs, rc);
         }
     } break;
     }
